@@ -131,5 +131,5 @@ BUDGET = {"quick": 120.0, "thorough": 600.0}
 
 
 def plan(tier, seed):
-    P = 1 if tier == "quick" else 2
+    P = 1 if tier == "quick" else 4
     return [dict(scenario="pending", params={}, bounds=dict(P=P)), dict(scenario="nocancel", params={}, bounds=dict(P=P + 1))]
